@@ -227,6 +227,11 @@ pub fn gen_v1(t: &mut Tape) -> Case {
                 }
             };
             p.ending = vec![b'\r', b];
+            if t.chance(1, 4) {
+                // a complete multi-byte character after the CR: the input stays valid UTF-8, so the &str entry point is judged too
+                p.ending = vec![b'\r'];
+                p.ending.extend_from_slice(t.pick(&["\u{e9}", "\u{20ac}", "\u{1f600}", "\u{80}"]).as_bytes());
+            }
             if t.coin() {
                 p.ending.extend_from_slice(b"\n");
             }
